@@ -265,8 +265,9 @@ def code_checks(ctx):
     ctx.log("connections ok %d / %d, re-keys completed %d (server-initiated %d, client-initiated %d), failures %s"
             % (ok, len(rows), ex.get("rekeys_completed", 0), ex.get("rekeys_server_initiated", 0), ex.get("rekeys_client_initiated", 0),
                json.dumps(ex.get("failures_by_signature") or {})))
-    if not ctx.replay:
-        # vacuity guards: never a verdict
+    if not ctx.replay and not ctx.violations:
+        # vacuity guards: never a verdict, and never in the way of one (a defect that kills every re-key
+        # also empties the re-key counters; the recorded violations are then the result of the run)
         if ok == 0:
             raise vlib.Infra("no connection succeeded at all: harness or environment trouble, not a verdict:\n%s" % res.get("_stdout", "")[-2000:])
         if ex.get("rekeys_client_initiated", 0) == 0 or ex.get("rekeys_server_initiated", 0) == 0:
